@@ -532,3 +532,89 @@ Proof.
       rewrite RA. rewrite !expire_idem. reflexivity.
   - rewrite Hs3; unfold do_await. rewrite upd_all_shut. exact Es.
 Qed.
+
+(* ---- well-formed histories (the quantifier of the theorems) ----
+   ids are fresh; every Express is immediately followed by its Await at the same time, both without tie; lifetimes
+   are positive; times do not decrease; nothing is expressed after a Shutdown. *)
+Fixpoint wf_from (seen : list N) (tl : N) (sh : bool) (h : list (tie * ev)) {struct h} : Prop :=
+  match h with
+  | [] => True
+  | (m, e) :: rest =>
+      match e with
+      | Express i n cbp dig life vm t =>
+          match rest with
+          | (m', Await j t') :: h' =>
+              m = NoTie /\ m' = NoTie /\ j = i /\ t' = t /\ tl <= t /\ 0 < life /\ ~ In i seen /\ sh = false /\
+              wf_from (i :: seen) t sh h'
+          | _ => False
+          end
+      | Await _ _ => False
+      | _ => tl <= ev_time e /\ wf_from seen (ev_time e) (sh || is_shutdown e) rest
+      end
+  end.
+
+Definition wf_history (h : list (tie * ev)) : Prop := wf_from [] 0 false h.
+
+Definition ginv (fe : frontend) (s : st) : Prop := inv fe false s /\ shut_ok s.
+
+Lemma refine_from fe : forall (k : nat) (h : list (tie * ev)) (s : st) (seen : list N),
+  (length h <= k)%nat ->
+  ginv fe s -> (forall i, In i (map fst (ints s)) -> In i seen) ->
+  wf_from seen (now s) (shut s) h ->
+  ginv fe (fold_left (step fe) h s) /\
+  forall i, abs (fold_left (step fe) h s) i = fold_left (spec_step fe i) h (abs s i).
+Proof.
+  induction k as [|k IH]; intros h s seen Len [I SH] SEEN WF.
+  - destruct h; [|cbn in Len; lia]. cbn. split; [split; auto | auto].
+  - destruct h as [|[m e] rest]; [cbn; split; [split; auto | auto]|].
+    cbn [length] in Len.
+
+    destruct e as [i n cbp dig life vm t| | | | | | | | | ].
+    + (* Express, then Await *)
+      cbn [wf_from] in WF. destruct rest as [|[m' e'] h']; [destruct WF|]. destruct e'; try (exfalso; exact WF).
+      destruct WF as [-> [-> [-> [-> [LE [L [NS [S WF]]]]]]]].
+      cbn [fold_left].
+      assert (G : get_int s i = None).
+      { unfold get_int. apply al_get_None_notin. intros X. apply NS, SEEN, X. }
+      destruct (step_express_await fe s i n cbp dig life vm t I SH LE L G S) as [I' [SH' [A' [N' [S' IDS']]]]].
+      set (s' := step fe (step fe s (NoTie, Express i n cbp dig life vm t)) (NoTie, Await i t)) in *.
+      destruct (IH h' s' (i :: seen)) as [GI AB].
+      * cbn [length] in Len. lia.
+      * split; auto.
+      * intros j Ij. rewrite IDS' in Ij. apply in_app_iff in Ij. destruct Ij as [Ij|[<-|[]]]; [right; apply SEEN, Ij | left; reflexivity].
+      * rewrite N', S'. rewrite S in WF. exact WF.
+      * split; auto. intros j. rewrite AB, A'. reflexivity.
+    + destruct WF.
+    + destruct WF as [LE WF]. cbn [fold_left].
+      destruct (step_plain fe s m (Data d n hash t) I SH LE eq_refl) as [I' [SH' [A' [N' [S' IDS']]]]].
+      destruct (IH rest (step fe s (m, Data d n hash t)) seen) as [GI AB]; [lia | split; auto | rewrite IDS'; auto | rewrite N', S'; exact WF |].
+      split; auto. intros j. rewrite AB, A'. reflexivity.
+    + destruct WF as [LE WF]. cbn [fold_left].
+      destruct (step_plain fe s m (Nack n dig reason t) I SH LE eq_refl) as [I' [SH' [A' [N' [S' IDS']]]]].
+      destruct (IH rest (step fe s (m, Nack n dig reason t)) seen) as [GI AB]; [lia | split; auto | rewrite IDS'; auto | rewrite N', S'; exact WF |].
+      split; auto. intros j. rewrite AB, A'. reflexivity.
+    + destruct WF as [LE WF]. cbn [fold_left].
+      destruct (step_plain fe s m (VDone i v t) I SH LE eq_refl) as [I' [SH' [A' [N' [S' IDS']]]]].
+      destruct (IH rest (step fe s (m, VDone i v t)) seen) as [GI AB]; [lia | split; auto | rewrite IDS'; auto | rewrite N', S'; exact WF |].
+      split; auto. intros j. rewrite AB, A'. reflexivity.
+    + destruct WF as [LE WF]. cbn [fold_left].
+      destruct (step_plain fe s m (Cancel i t) I SH LE eq_refl) as [I' [SH' [A' [N' [S' IDS']]]]].
+      destruct (IH rest (step fe s (m, Cancel i t)) seen) as [GI AB]; [lia | split; auto | rewrite IDS'; auto | rewrite N', S'; exact WF |].
+      split; auto. intros j. rewrite AB, A'. reflexivity.
+    + destruct WF as [LE WF]. cbn [fold_left].
+      destruct (step_plain fe s m (Shutdown t) I SH LE eq_refl) as [I' [SH' [A' [N' [S' IDS']]]]].
+      destruct (IH rest (step fe s (m, Shutdown t)) seen) as [GI AB]; [lia | split; auto | rewrite IDS'; auto | rewrite N', S'; exact WF |].
+      split; auto. intros j. rewrite AB, A'. reflexivity.
+    + destruct WF as [LE WF]. cbn [fold_left].
+      destruct (step_plain fe s m (AdvanceTo t) I SH LE eq_refl) as [I' [SH' [A' [N' [S' IDS']]]]].
+      destruct (IH rest (step fe s (m, AdvanceTo t)) seen) as [GI AB]; [lia | split; auto | rewrite IDS'; auto | rewrite N', S'; exact WF |].
+      split; auto. intros j. rewrite AB, A'. reflexivity.
+    + destruct WF as [LE WF]. cbn [fold_left].
+      destruct (step_plain fe s m (Attach p hasv t) I SH LE eq_refl) as [I' [SH' [A' [N' [S' IDS']]]]].
+      destruct (IH rest (step fe s (m, Attach p hasv t)) seen) as [GI AB]; [lia | split; auto | rewrite IDS'; auto | rewrite N', S'; exact WF |].
+      split; auto. intros j. rewrite AB, A'. reflexivity.
+    + destruct WF as [LE WF]. cbn [fold_left].
+      destruct (step_plain fe s m (Incoming k0 n has_params sig digest_ok v t) I SH LE eq_refl) as [I' [SH' [A' [N' [S' IDS']]]]].
+      destruct (IH rest (step fe s (m, Incoming k0 n has_params sig digest_ok v t)) seen) as [GI AB]; [lia | split; auto | rewrite IDS'; auto | rewrite N', S'; exact WF |].
+      split; auto. intros j. rewrite AB, A'. reflexivity.
+Qed.
